@@ -178,7 +178,24 @@ var c11Injectors = []c11Injector{
 		addBody(modA(ms), yang.S("feature", "cyf1", yang.S("if-feature", "cyf2")), yang.S("feature", "cyf2", yang.S("if-feature", "cyf1")))
 		return true
 	}},
+	// cycles that are only reached after an if-feature on a feature that is not enabled (the injected
+	// features are never in the enabled set)
+	{"feature-cycle-behind-a-disabled-feature", true, func(r *core.Rng, ms *yang.ModSet) bool {
+		addBody(modA(ms), yang.S("feature", "cy-plain"), yang.S("feature", "cy-one", yang.S("if-feature", "cy-two")),
+			yang.S("feature", "cy-two", yang.S("if-feature", "cy-plain"), yang.S("if-feature", "cy-one")))
+		return true
+	}},
+	{"feature-self-cycle-behind-two-disabled-features", true, func(r *core.Rng, ms *yang.ModSet) bool {
+		addBody(modA(ms), yang.S("feature", "cy-p1"), yang.S("feature", "cy-p2"),
+			yang.S("feature", "cy-self", yang.S("if-feature", "cy-p1"), yang.S("if-feature", "cy-p2"), yang.S("if-feature", "cy-self")),
+			yang.S("leaf", "cy-guarded", yang.S("type", "string"), yang.S("if-feature", "cy-self")))
+		return true
+	}},
 	// ---- dangling / ill-kinded references: no crash, same verdict
+	{"unknown-feature-behind-a-disabled-feature", false, func(r *core.Rng, ms *yang.ModSet) bool {
+		addBody(modA(ms), yang.S("feature", "dg-plain"), yang.S("feature", "dg-f", yang.S("if-feature", "dg-plain"), yang.S("if-feature", "no-such-feature")))
+		return true
+	}},
 	// two modules define a top-level node with the same local name (the repository keeps all top-level
 	// nodes of a model set in one name space): whatever the verdict, it must be the same every time, and
 	// if the set is accepted the merged tree must be the same every time
